@@ -283,17 +283,28 @@ Proof. intros x a b H Hb. apply H. apply in_or_app. right. exact Hb. Qed.
 Lemma notin_app_l : forall (x : nat) a b, ~ In x (a ++ b) -> ~ In x a.
 Proof. intros x a b H Hb. apply H. apply in_or_app. left. exact Hb. Qed.
 
+Lemma nodup_app_inv : forall (a b : list nat), NoDup (a ++ b) ->
+  NoDup a /\ NoDup b /\ (forall m, In m a -> ~ In m b).
+Proof.
+  induction a as [|q a IH]; intros b H; cbn [app] in H.
+  - repeat split; auto. constructor.
+  - inversion H as [|? ? Hq Hr]; subst. destruct (IH _ Hr) as (Ha & Hb & Hdis).
+    repeat split; auto.
+    + constructor; auto. eapply notin_app_l; exact Hq.
+    + intros m [->|Hm]; [eapply notin_app_r; exact Hq|auto].
+Qed.
+
 (* delete_at in the middle: predecessor and successor are relinked around the node *)
 Lemma vrep_delete_mid : forall s a0 pl y c x g z b',
   vrep s ((a0 ++ [(pl, y)]) ++ (c, x) :: (g, z) :: b') ->
   vrep (v_delete_at s (Z.of_nat (length (a0 ++ [(pl, y)])))) ((a0 ++ [(pl, y)]) ++ (g, z) :: b') /\
   v_delete_log s (Z.of_nat (length (a0 ++ [(pl, y)]))) = [Free c].
 Proof.
-  intros s a0 pl y c x g z b'. set (a := a0 ++ [(pl, y)]). set (b := (g, z) :: b').
+  intros s a0 pl y c x g z b'. remember (a0 ++ [(pl, y)]) as a eqn:Ea. remember ((g, z) :: b') as b eqn:Eb.
   intros (Hc & Hf & Hb & Hl & Hd & Hlt & Hle).
-  assert (length a <> 0)%nat as Ha0 by (unfold a; rewrite app_length; cbn [length]; lia).
+  assert (length a <> 0)%nat as Ha0 by (subst a; rewrite app_length; cbn [length]; lia).
   assert (length (a ++ (c, x) :: b) = length a + 2 + length b')%nat as Hlen.
-  { rewrite app_length. unfold b. cbn [length]. lia. }
+  { rewrite app_length. subst b. cbn [length]. lia. }
   assert (v_walk (vh s) (vfront s) (Z.to_nat (Z.of_nat (length a))) = Some c) as Hw.
   { rewrite Nat2Z.id, Hf, <- nhd_or_None. rewrite (walk_dseg _ _ _ _ _ Hc) by lia.
     rewrite skipn_length_app. reflexivity. }
@@ -303,37 +314,430 @@ Proof.
   destruct (Z.eqb_spec (Z.of_nat (length a)) 0); [lia|].
   destruct (Z.eqb_spec (Z.of_nat (length a)) (Z.of_nat (length a + 2 + length b') - 1)); [lia|].
   split; [|reflexivity].
-  (* heap facts *)
-  apply dseg_app in Hc. destruct Hc as (Hca & Hcb).
-  unfold a in Hcb at 1. rewrite nlast_or_snoc in Hcb.
-  destruct (dseg_lookup_first _ _ _ _ _ _ Hcb) as (_ & Hnx & Hpv). rewrite Hnx, Hpv. unfold b at 1. cbn [nhd_or].
-  destruct Hcb as (Hch & Hcbb). cbn [nhd_or] in Hca.
-  rewrite nids_app in Hd. cbn [nids List.map fst] in Hd.
+  (* distinctness facts *)
+  rewrite nids_app in Hd. cbn [nids List.map fst] in Hd. fold (nids b) in Hd. fold (nids a) in Hd.
   pose proof (NoDup_remove_1 _ _ _ Hd) as Hd1. pose proof (NoDup_remove_2 _ _ _ Hd) as Hd2.
-  fold (nids b) in Hd1, Hd2. fold (nids a) in Hd1, Hd2.
-  assert (NoDup (nids a)) as Hda by (eapply NoDup_app_remove_r; exact Hd1).
-  assert (NoDup (nids b)) as Hdb by (eapply NoDup_app_remove_l; exact Hd1).
+  destruct (nodup_app_inv _ _ Hd1) as (Hda & Hdb & Hdisj).
   assert (~ In c (nids a)) as Hca_ by (eapply notin_app_l; exact Hd2).
   assert (~ In c (nids b)) as Hcb_ by (eapply notin_app_r; exact Hd2).
-  assert (forall m, In m (nids a) -> ~ In m (nids b)) as Hdisj.
-  { intros m Hma Hmb. clear - Hd1 Hma Hmb. induction (nids a) as [|q l IH]; [destruct Hma|].
-    cbn [app] in Hd1. inversion Hd1; subst. destruct Hma as [->|Hma]; [|auto].
-    apply H1. apply in_or_app. right. exact Hmb. }
-  assert (In pl (nids a)) as Hpla by (unfold a; apply in_nids_snoc).
-  assert (In g (nids b)) as Hgb by (left; reflexivity).
+  assert (In pl (nids a)) as Hpla by (subst a; apply in_nids_snoc).
+  assert (In g (nids b)) as Hgb by (subst b; left; reflexivity).
   assert (~ In pl (nids a0)) as Hpla0.
-  { unfold a in Hda. rewrite nids_app in Hda. cbn [nids List.map fst] in Hda. apply nodup_snoc_inv in Hda. tauto. }
-  assert (g <> pl) as Hgpl by (intro; subst; eapply Hdisj; eauto).
-  assert (c <> pl) as Hcpl by (intro; subst; auto).
-  assert (c <> g) as Hcg by (intro; subst; auto).
-  (* the predecessor's and the successor's records *)
-  unfold a in Hca. pose proof Hca as Hca'. apply dseg_app in Hca'. destruct Hca' as (_ & ((Hplh & _))).
-  cbn [nhd_or] in Hplh. destruct Hcbb as (Hgh & Hgt).
+  { subst a. rewrite nids_app in Hda. cbn [nids List.map fst] in Hda. apply nodup_snoc_inv in Hda. tauto. }
+  assert (~ In g (nids b')) as Hgb'.
+  { subst b. cbn [nids List.map fst] in Hdb. inversion Hdb; auto. }
+  assert (g <> pl) as Hgpl by (intro; subst g; eapply Hdisj; eauto).
+  assert (c <> pl) as Hcpl by (intro; subst c; auto).
+  assert (c <> g) as Hcg by (intro; subst c; auto).
+  (* heap facts *)
+  apply dseg_app in Hc. destruct Hc as (Hca & Hcb). cbn [nhd_or] in Hca.
+  assert (nlast_or None a = Some pl) as Hla by (subst a; apply nlast_or_snoc).
+  rewrite Hla in Hcb.
+  destruct (dseg_lookup_first _ _ _ _ _ _ Hcb) as (_ & Hnx & Hpv). rewrite Hnx, Hpv.
+  destruct Hcb as (Hch & Hcbb).
+  assert (nhd_or None b = Some g) as Hnb by (subst b; reflexivity). rewrite Hnb.
+  assert (vh s pl = Some (mkv (nlast_or None a0) (Some c) y)) as Hplh.
+  { subst a. apply dseg_app in Hca. destruct Hca as (_ & (Hplh & _)). exact Hplh. }
+  assert (vh s g = Some (mkv (Some c) (nhd_or None b') z)) as Hgh.
+  { subst b. destruct Hcbb as (Hgh & _). exact Hgh. }
   rewrite (set_next_as_upd _ _ _ _ _ _ Hplh).
   rewrite (set_prev_as_upd _ g (Some c) z (nhd_or None b')) by (rewrite upd_other; auto).
   unfold vrep. cbn [vh vfront vback vlength vnxt].
   split.
   { apply dseg_app. split.
-    - cbn [nhd_or]. apply dseg_frame; [exact Hca_|]. apply dseg_frame; [fold a; eapply Hdisj' |].
-      all: fail. }
-Abort.
+    - rewrite Hnb. apply dseg_frame; [exact Hca_|]. apply dseg_frame; [intro Hg; eapply Hdisj; eauto|].
+      rewrite <- (set_next_as_upd _ _ _ _ _ _ Hplh). subst a.
+      eapply dseg_set_next_last; eauto.
+    - rewrite Hla. apply dseg_frame; [exact Hcb_|].
+      assert (dseg (upd (vh s) pl (Some (mkv (nlast_or None a0) (Some g) y))) (Some c) b None) as Hb1.
+      { apply dseg_frame; auto. }
+      subst b. rewrite <- (set_prev_as_upd _ g (Some c) z (nhd_or None b')) by (rewrite upd_other; auto).
+      apply dseg_set_prev_first with (p := Some c); auto. }
+  split.
+  { rewrite Hf. subst a. destruct a0 as [|[? ?] ?]; reflexivity. }
+  split.
+  { rewrite Hb. rewrite !nlast_app by (subst b; discriminate). subst b. reflexivity. }
+  split; [rewrite app_length in *; subst b; cbn [length] in *; lia|].
+  split; [rewrite nids_app; exact Hd1|].
+  split.
+  { rewrite nids_app in *. cbn [nids List.map fst] in Hlt. apply Forall_app in Hlt. destruct Hlt as (L1 & L2).
+    inversion L2; subst. apply Forall_app. split; auto. }
+  rewrite app_length in *. subst b. cbn [length] in *. lia.
+Qed.
+
+(* delete_at at any valid index k: ns = a ++ (c,x) :: b with |a| = k *)
+Lemma vrep_delete_at : forall s a c x b, vrep s (a ++ (c, x) :: b) ->
+  vrep (v_delete_at s (Z.of_nat (length a))) (a ++ b) /\
+  v_delete_log s (Z.of_nat (length a)) = [Free c].
+Proof.
+  intros s a c x b R. pose proof R as (Hc & Hf & Hb & Hl & Hd & Hlt & Hle).
+  destruct a as [|[f0 x0] a'].
+  - (* index 0: pop_front *)
+    cbn [app length] in *. unfold v_delete_at, v_delete_log. rewrite Hl. cbn [length].
+    change (Z.of_nat 0) with 0. cbn [Z.ltb Z.compare orb].
+    rewrite Z.geb_leb. destruct (Z.leb_spec (Z.of_nat (S (length b))) 0); [lia|].
+    cbn [Z.eqb]. split; [apply (vrep_pop_front s c x b R)|]. rewrite Hf. reflexivity.
+  - destruct b as [|[g z] b'].
+    + (* last index: pop_back *)
+      unfold v_delete_at, v_delete_log. rewrite Hl, app_length. cbn [length].
+      destruct (Z.ltb_spec (Z.of_nat (S (length a'))) 0); [lia|]. cbn [orb].
+      rewrite Z.geb_leb. destruct (Z.leb_spec (Z.of_nat (S (length a') + 1)) (Z.of_nat (S (length a')))); [lia|].
+      destruct (Z.eqb_spec (Z.of_nat (S (length a'))) 0); [lia|].
+      destruct (Z.eqb_spec (Z.of_nat (S (length a'))) (Z.of_nat (S (length a') + 1) - 1)); [|lia].
+      rewrite app_nil_r. split; [apply (vrep_pop_back s _ c x R)|].
+      rewrite Hb, nlast_snoc. reflexivity.
+    + destruct (snoc_cases ((f0, x0) :: a')) as [E|(a0 & pl & y & E)]; [discriminate|].
+      rewrite E in *. apply vrep_delete_mid with (x := x). exact R.
+Qed.
+
+Lemma nvals_firstn_skipn : forall a c x b,
+  firstn (length a) (nvals (a ++ (c, x) :: b)) ++ skipn (S (length a)) (nvals (a ++ (c, x) :: b)) = nvals (a ++ b).
+Proof.
+  induction a as [|[n y] a IH]; intros; cbn [app length nvals List.map snd firstn skipn]; auto.
+  f_equal. apply IH.
+Qed.
+
+(* ---------------------------------------------------------------- sort *)
+Lemma collect_dseg : forall ns h p e, dseg h p ns e -> v_collect (length ns) h (nhd_or e ns) = nids ns.
+Proof.
+  induction ns as [|[n x] tl IH]; intros h p e H; [reflexivity|].
+  cbn [length nhd_or v_collect nids List.map fst].
+  destruct (dseg_lookup_first _ _ _ _ _ _ H) as (_ & Hn & _). rewrite Hn.
+  destruct H as (_ & Ht). f_equal. apply (IH _ _ _ Ht).
+Qed.
+
+Lemma keys_dseg : forall ns h p e, dseg h p ns e ->
+  List.map (fun n => v_data h (Some n)) (nids ns) = nvals ns.
+Proof.
+  induction ns as [|[n x] tl IH]; intros h p e H; [reflexivity|].
+  cbn [nids nvals List.map fst snd].
+  destruct (dseg_lookup_first _ _ _ _ _ _ H) as (Hd & _). rewrite Hd. f_equal.
+  destruct H as (_ & Ht). apply (IH _ _ _ Ht).
+Qed.
+
+Lemma set_links_other : forall h n p nx m, m <> n -> v_set_links h n p nx m = h m.
+Proof. intros. unfold v_set_links. destruct (h n); auto. apply upd_other; auto. Qed.
+Lemma set_links_data : forall h n p nx m, v_data (v_set_links h n p nx) (Some m) = v_data h (Some m).
+Proof.
+  intros. unfold v_set_links, v_data. destruct (h n) eqn:E; auto.
+  unfold upd. destruct (Nat.eqb_spec m n); auto. subst. rewrite E. reflexivity.
+Qed.
+Lemma relink_other : forall arr h p m, ~ In m arr -> v_relink h p arr m = h m.
+Proof.
+  induction arr as [|n tl IH]; intros h p m Hm; [reflexivity|].
+  cbn [v_relink]. rewrite IH by (intro; apply Hm; right; auto).
+  apply set_links_other. intro; subst. apply Hm. left. reflexivity.
+Qed.
+Lemma relink_data : forall arr h p m, v_data (v_relink h p arr) (Some m) = v_data h (Some m).
+Proof.
+  induction arr as [|n tl IH]; intros h p m; [reflexivity|].
+  cbn [v_relink]. rewrite IH. apply set_links_data.
+Qed.
+
+Lemma hd_ptr_map : forall (tl : list nat) (k : nat -> Z),
+  nhd_or None (List.map (fun n => (n, k n)) tl) = hd_ptr tl.
+Proof. destruct tl; reflexivity. Qed.
+
+Lemma relink_dseg : forall arr h p, NoDup arr -> (forall n, In n arr -> h n <> None) ->
+  dseg (v_relink h p arr) p (List.map (fun n => (n, v_data h (Some n))) arr) None.
+Proof.
+  induction arr as [|n tl IH]; intros h p Hd Hin; [exact I|].
+  inversion Hd as [|? ? Hn Hd']; subst.
+  cbn [v_relink List.map dseg]. split.
+  - rewrite relink_other by exact Hn. rewrite hd_ptr_map.
+    unfold v_set_links, v_data. destruct (h n) eqn:E; [|exfalso; apply (Hin n); [left; reflexivity|exact E]].
+    apply upd_same.
+  - assert (List.map (fun m => (m, v_data h (Some m))) tl =
+            List.map (fun m => (m, v_data (v_set_links h n p (hd_ptr tl)) (Some m))) tl) as Em.
+    { apply map_ext. intros m. rewrite set_links_data. reflexivity. }
+    rewrite Em. apply IH; auto.
+    intros m Hm. rewrite set_links_other.
+    + apply Hin. right. exact Hm.
+    + intro; subst. auto.
+Qed.
+
+Lemma find_back_dseg : forall tl h p n x fuel, dseg h p ((n, x) :: tl) None -> (length tl < fuel)%nat ->
+  v_find_back fuel h n = nlast ((n, x) :: tl).
+Proof.
+  induction tl as [|[g y] tl IH]; intros h p n x fuel H Hf; (destruct fuel as [|fu]; [lia|]).
+  - cbn [v_find_back]. destruct (dseg_lookup_first _ _ _ _ _ _ H) as (_ & Hn & _). rewrite Hn. reflexivity.
+  - cbn [v_find_back]. destruct (dseg_lookup_first _ _ _ _ _ _ H) as (_ & Hn & _). rewrite Hn.
+    cbn [nhd_or]. destruct H as (_ & Ht). rewrite (IH _ _ _ _ _ Ht) by (cbn [length] in Hf; lia).
+    reflexivity.
+Qed.
+
+Lemma dseg_present : forall ns h p e n, dseg h p ns e -> In n (nids ns) -> h n <> None.
+Proof.
+  induction ns as [|[a y] tl IH]; intros h p e n H Hin; [destruct Hin|].
+  destruct H as (Ha & Ht). destruct Hin as [<-|Hin]; [cbn [fst]; congruence|]. eapply IH; eauto.
+Qed.
+
+Lemma nids_map_pair : forall (l : list nat) (k : nat -> Z), nids (List.map (fun n => (n, k n)) l) = l.
+Proof. induction l; intros; cbn; auto. f_equal. apply IHl. Qed.
+Lemma nvals_map_pair : forall (l : list nat) (k : nat -> Z), nvals (List.map (fun n => (n, k n)) l) = List.map k l.
+Proof. induction l; intros; cbn; auto. f_equal. apply IHl. Qed.
+
+Lemma vrep_sort : forall s ns le, (forall x y, le x y = false -> le y x = true) -> vrep s ns ->
+  exists ns', vrep (v_sort s le) ns' /\ nvals ns' = s_sort le (nvals ns) /\ Permutation (nids ns') (nids ns).
+Proof.
+  intros s ns le Htot R. pose proof R as (Hc & Hf & Hb & Hl & Hd & Hlt & Hle).
+  unfold v_sort. destruct (Z.leb_spec (vlength s) 1) as [Hsmall|Hbig].
+  - exists ns. split; [exact R|]. split; [|reflexivity].
+    symmetry. apply s_sort_short. unfold nvals. rewrite map_length. lia.
+  - rewrite Hl, Nat2Z.id, Hf, <- nhd_or_None, (collect_dseg _ _ _ _ Hc).
+    set (key := fun n => v_data (vh s) (Some n)).
+    set (arr := v_sort_ids le key (nids ns)).
+    assert (Permutation arr (nids ns)) as Hp by (apply sort_perm).
+    assert (NoDup arr) as Hda by (eapply Permutation_NoDup; [symmetry; exact Hp|exact Hd]).
+    assert (forall n, In n arr -> vh s n <> None) as Hpres.
+    { intros n Hn. eapply dseg_present; [exact Hc|]. eapply Permutation_in; [exact Hp|exact Hn]. }
+    pose proof (relink_dseg arr (vh s) None Hda Hpres) as Hseg. fold key in Hseg.
+    set (ns' := List.map (fun n => (n, key n)) arr) in *.
+    assert (length arr = length ns) as Hlen.
+    { rewrite (Permutation_length Hp). unfold nids. apply map_length. }
+    destruct arr as [|hd tl] eqn:Earr; [cbn [length] in Hlen; lia|].
+    cbn [hd_ptr]. exists ns'. split; [|split].
+    + unfold vrep. cbn [vh vfront vback vlength vnxt].
+      split; [exact Hseg|].
+      split; [reflexivity|].
+      split.
+      { unfold ns' in *. cbn [List.map] in *.
+        rewrite (find_back_dseg _ _ _ _ _ _ Hseg) by (rewrite map_length; cbn [length]; lia).
+        destruct (nlast_nonempty ((hd, key hd) :: List.map (fun n => (n, key n)) tl)) as (m & E); [discriminate|].
+        unfold key in *. rewrite E. reflexivity. }
+      split; [unfold ns'; rewrite map_length, Hlen; first [exact Hl|reflexivity]|].
+      split; [unfold ns'; rewrite nids_map_pair; exact Hda|].
+      split.
+      { unfold ns'. rewrite nids_map_pair. rewrite Forall_forall in *. intros n Hn.
+        assert (n < vnxt s)%nat; [|lia]. apply Hlt. eapply Permutation_in; [exact Hp|exact Hn]. }
+      unfold ns'. rewrite map_length, Hlen. lia.
+    + unfold ns'. rewrite nvals_map_pair. rewrite <- Earr. unfold arr.
+      rewrite (sort_map le key (fun x => x) key) by reflexivity.
+      unfold key. rewrite (keys_dseg _ _ _ _ Hc). reflexivity.
+    + unfold ns'. rewrite nids_map_pair. exact Hp.
+Qed.
+
+(* ---------------------------------------------------------------- clear and ~self() *)
+Lemma clear_loop_vrep : forall ns s fuel, vrep s ns -> (length ns <= fuel)%nat ->
+  exists s', v_clear_loop fuel s = (s', List.map Free (nids ns)) /\ vrep s' [] /\ vnxt s' = vnxt s.
+Proof.
+  induction ns as [|[f x] tl IH]; intros s fuel R Hfuel.
+  - destruct R as (Hc & Hf & Hrest). exists s. split; [|split; [repeat split; tauto|reflexivity]].
+    destruct fuel; cbn [v_clear_loop]; auto. rewrite Hf. reflexivity.
+  - destruct fuel as [|fu]; [cbn in Hfuel; lia|].
+    pose proof (vrep_pop_front s f x tl R) as R'.
+    destruct (IH (v_pop_front s) fu R') as (s' & E & R'' & Hn); [cbn [length] in Hfuel; lia|].
+    destruct R as (_ & Hf & _). cbn [nhd] in Hf.
+    cbn [v_clear_loop]. rewrite Hf, E. exists s'. split; [reflexivity|]. split; auto.
+    rewrite Hn. unfold v_pop_front. rewrite Hf. destruct (v_next (vh s) (Some f)); reflexivity.
+Qed.
+
+Lemma dtor_loop_dseg : forall ns h p fuel, dseg h p ns None -> (length ns <= fuel)%nat ->
+  v_dtor_loop fuel h (nhd ns) = List.map Free (nids ns).
+Proof.
+  induction ns as [|[n x] tl IH]; intros h p fuel H Hf.
+  - destruct fuel; reflexivity.
+  - destruct fuel as [|fu]; [cbn in Hf; lia|].
+    cbn [nhd v_dtor_loop nids List.map fst].
+    destruct (dseg_lookup_first _ _ _ _ _ _ H) as (_ & Hn & _). rewrite Hn, nhd_or_None.
+    destruct H as (_ & Ht). f_equal. apply (IH _ _ _ Ht). cbn [length] in Hf. lia.
+Qed.
+
+(* ---------------------------------------------------------------- Spec: a list *)
+Definition vs_step (l : list Z) (o : vop) : list Z :=
+  match o with
+  | VPushBack v => l ++ [v]
+  | VPushFront v => v :: l
+  | VPopBack => removelast l
+  | VPopFront => tl l
+  | VDeleteAt i => if (i <? 0) || (i >=? Z.of_nat (length l)) then l
+                   else firstn (Z.to_nat i) l ++ skipn (S (Z.to_nat i)) l
+  | VSort | VSmaller => s_sort z_le l
+  | VGreater => s_sort z_ge l
+  | VClear => []
+  | _ => l
+  end.
+Definition vs_res (l : list Z) (o : vop) : res :=
+  match o with
+  | VAt i => RInt (if (i <? 0) || (i >=? Z.of_nat (length l)) then 0 else nth (Z.to_nat i) l 0)
+  | VFind v => RInt (find_from l 0 v)
+  | VLength => RInt (Z.of_nat (length l))
+  | VIsEmpty => RBool (match l with [] => true | _ => false end)
+  | _ => RUnit
+  end.
+Fixpoint vs_run (ops : list vop) (l : list Z) : list Z :=
+  match ops with [] => l | o :: r => vs_run r (vs_step l o) end.
+Fixpoint vs_run_res (ops : list vop) (l : list Z) : list res :=
+  match ops with [] => [] | o :: r => vs_res l o :: vs_run_res r (vs_step l o) end.
+
+Lemma nvals_length : forall ns, length (nvals ns) = length ns.
+Proof. intros. unfold nvals. apply map_length. Qed.
+
+Lemma nvals_removelast : forall a r x, removelast (nvals (a ++ [(r, x)])) = nvals a.
+Proof. intros. rewrite nvals_app. cbn [nvals List.map snd]. apply removelast_last. Qed.
+
+Lemma live_fresh : forall live l n, Permutation live l -> Forall (fun m => (m < n)%nat) l ->
+  forall k, (n <= k)%nat -> ~ In k live.
+Proof.
+  intros live l n P F k Hk Hin. rewrite Forall_forall in F.
+  assert (k < n)%nat; [|lia]. apply F. eapply Permutation_in; [exact P|exact Hin].
+Qed.
+
+Lemma replay_sort_log : forall live n, ~ In n live -> ~ In (S n) live ->
+  replay live [Malloc n; Malloc (S n); Free (S n); Free n] = Some live.
+Proof.
+  intros live n H1 H2. cbn [replay].
+  rewrite (proj2 (mem_notIn n live) H1).
+  assert (mem (S n) (n :: live) = false) as E2.
+  { cbn [mem]. rewrite (proj2 (mem_notIn (S n) live) H2).
+    assert (Nat.eqb (S n) n = false) as En by (apply Nat.eqb_neq; lia). rewrite En. reflexivity. }
+  rewrite E2.
+  assert (mem (S n) (S n :: n :: live) = true) as E3 by (cbn [mem]; rewrite Nat.eqb_refl; reflexivity).
+  rewrite E3. cbn [remove1]. rewrite Nat.eqb_refl.
+  assert (mem n (n :: live) = true) as E4 by (cbn [mem]; rewrite Nat.eqb_refl; reflexivity).
+  rewrite E4. cbn [remove1]. rewrite Nat.eqb_refl. reflexivity.
+Qed.
+
+Lemma v_step_refines : forall s ns o live, vrep s ns -> Permutation live (nids ns) ->
+  exists ns' live',
+    vrep (v_step s o) ns' /\ nvals ns' = vs_step (nvals ns) o /\ v_res s o = vs_res (nvals ns) o /\
+    replay live (v_log s o) = Some live' /\ Permutation live' (nids ns').
+Proof.
+  intros s ns o live R P.
+  pose proof R as (Hc & Hf & Hb & Hl & Hd & Hlt & Hle).
+  pose proof (live_fresh live _ _ P Hlt) as Hfresh.
+  destruct o; cbn [v_step v_res v_log vs_step vs_res].
+  - (* push_back *)
+    exists (ns ++ [(vnxt s, v)]), (vnxt s :: live). split; [apply vrep_push_back; exact R|].
+    split; [apply nvals_app|]. split; [reflexivity|]. split.
+    + apply replay_malloc. apply Hfresh. lia.
+    + rewrite nids_app. cbn [nids List.map fst]. rewrite P. apply Permutation_cons_append.
+  - (* push_front *)
+    exists ((vnxt s, v) :: ns), (vnxt s :: live). split; [apply vrep_push_front; exact R|].
+    split; [reflexivity|]. split; [reflexivity|]. split.
+    + apply replay_malloc. apply Hfresh. lia.
+    + cbn [nids List.map fst]. constructor. exact P.
+  - (* pop_back *)
+    destruct (snoc_cases ns) as [->|(a & r & x & ->)].
+    + cbn [nlast] in Hb. unfold v_pop_back. rewrite Hb. exists [], live.
+      split; [exact R|]. repeat split; auto.
+    + rewrite Hb, nlast_snoc.
+      destruct (replay_free r live (nids a)) as (l1 & E1 & P1).
+      { rewrite P, nids_app. cbn [nids List.map fst]. symmetry. apply Permutation_cons_append. }
+      exists a, l1. split; [apply (vrep_pop_back s a r x R)|].
+      split; [symmetry; apply nvals_removelast|]. split; [reflexivity|]. split; [exact E1|exact P1].
+  - (* pop_front *)
+    destruct ns as [|[f x] tl].
+    + cbn [nhd] in Hf. unfold v_pop_front. rewrite Hf. exists [], live.
+      split; [exact R|]. repeat split; auto.
+    + rewrite Hf. cbn [nhd].
+      destruct (replay_free f live (nids tl)) as (l1 & E1 & P1); [exact P|].
+      exists tl, l1. split; [apply (vrep_pop_front s f x tl R)|].
+      split; [reflexivity|]. split; [reflexivity|]. split; [exact E1|exact P1].
+  - (* delete_at *)
+    rewrite nvals_length.
+    destruct ((i <? 0) || (i >=? Z.of_nat (length ns))) eqn:G.
+    + exists ns, live. unfold v_delete_at, v_delete_log. rewrite Hl, G.
+      split; [exact R|]. repeat split; auto.
+    + apply orb_false_iff in G. destruct G as (G1 & G2).
+      apply Z.ltb_ge in G1. rewrite Z.geb_leb in G2. apply Z.leb_gt in G2.
+      assert (Z.to_nat i < length ns)%nat as Hk by lia.
+      destruct (split_at ns _ Hk) as (a & c & x & b & E & L). subst ns.
+      destruct (vrep_delete_at s a c x b R) as (R' & Lg).
+      rewrite L, Z2Nat.id in R', Lg by lia. rewrite Lg.
+      destruct (replay_free c live (nids (a ++ b))) as (l1 & E1 & P1).
+      { rewrite P, !nids_app. cbn [nids List.map fst]. symmetry. apply Permutation_middle. }
+      exists (a ++ b), l1. split; [exact R'|].
+      split; [rewrite <- L; symmetry; apply nvals_firstn_skipn|].
+      split; [reflexivity|]. split; [exact E1|exact P1].
+  - (* at *)
+    exists ns, live. split; [exact R|]. split; [reflexivity|]. split.
+    + rewrite (vrep_at s ns i R), nvals_length. reflexivity.
+    + split; [reflexivity|exact P].
+  - (* find *)
+    exists ns, live. split; [exact R|]. split; [reflexivity|]. split.
+    + rewrite Hf, (find_loop_dseg _ _ _ _ _ _ Hc) by exact Hle. reflexivity.
+    + split; [reflexivity|exact P].
+  - (* sort *)
+    destruct (vrep_sort s ns z_le z_le_total R) as (ns' & R' & V & Pn).
+    exists ns', live. split; [exact R'|]. split; [exact V|]. split; [reflexivity|].
+    split; [|rewrite P; symmetry; exact Pn].
+    unfold v_sort_log. destruct (vlength s <=? 1); [reflexivity|].
+    apply replay_sort_log; apply Hfresh; lia.
+  - (* smaller *)
+    destruct (vrep_sort s ns z_le z_le_total R) as (ns' & R' & V & Pn).
+    exists ns', live. split; [exact R'|]. split; [exact V|]. split; [reflexivity|].
+    split; [|rewrite P; symmetry; exact Pn].
+    unfold v_sort_log. destruct (vlength s <=? 1); [reflexivity|].
+    apply replay_sort_log; apply Hfresh; lia.
+  - (* greater *)
+    destruct (vrep_sort s ns z_ge z_ge_total R) as (ns' & R' & V & Pn).
+    exists ns', live. split; [exact R'|]. split; [exact V|]. split; [reflexivity|].
+    split; [|rewrite P; symmetry; exact Pn].
+    unfold v_sort_log. destruct (vlength s <=? 1); [reflexivity|].
+    apply replay_sort_log; apply Hfresh; lia.
+  - (* get_length *)
+    exists ns, live. split; [exact R|]. repeat split; auto. rewrite Hl, nvals_length. reflexivity.
+  - (* is_empty *)
+    exists ns, live. split; [exact R|]. repeat split; auto. rewrite Hl. f_equal. apply length_zero_bool.
+  - (* clear *)
+    destruct (clear_loop_vrep ns s (vnxt s) R Hle) as (s' & E & R' & Hn).
+    rewrite E. cbn [fst snd].
+    destruct (replay_free_list (nids ns) live []) as (l1 & E1 & P1); [rewrite app_nil_r; exact P|].
+    exists [], l1. split; [exact R'|]. repeat split; auto.
+Qed.
+
+Lemma v_run_refines : forall ops s ns live, vrep s ns -> Permutation live (nids ns) ->
+  exists ns' live',
+    vrep (v_run ops s) ns' /\ nvals ns' = vs_run ops (nvals ns) /\
+    v_run_res ops s = vs_run_res ops (nvals ns) /\
+    replay live (v_run_log ops s) = Some live' /\ Permutation live' (nids ns').
+Proof.
+  induction ops as [|o ops IH]; intros s ns live R P; cbn [v_run vs_run v_run_res vs_run_res v_run_log].
+  - exists ns, live. split; [exact R|]. repeat split; auto.
+  - destruct (v_step_refines s ns o live R P) as (ns1 & l1 & R1 & V1 & Rs1 & E1 & P1).
+    destruct (IH _ _ _ R1 P1) as (ns2 & l2 & R2 & V2 & Rs2 & E2 & P2).
+    exists ns2, l2. rewrite V1 in *. split; [exact R2|]. split; [exact V2|].
+    split; [rewrite Rs1, Rs2; reflexivity|]. split; [rewrite replay_app, E1; exact E2|exact P2].
+Qed.
+
+Lemma dlist_refines_list_l : forall ops,
+  v_run_res ops vector_init = vs_run_res ops [] /\
+  exists ns, vrep (v_run ops vector_init) ns /\ nvals ns = vs_run ops [] /\
+             vlength (v_run ops vector_init) = Z.of_nat (length (vs_run ops [])).
+Proof.
+  intros. destruct (v_run_refines ops vector_init [] [] vrep_init (Permutation_refl _))
+    as (ns & live & R & V & Rs & _ & _).
+  change (nvals []) with (@nil Z) in *.
+  split; auto. exists ns. split; [exact R|]. split; [exact V|].
+  destruct R as (_ & _ & _ & Hl & _). rewrite Hl, <- V, nvals_length. reflexivity.
+Qed.
+
+Lemma vector_log_sound : forall ops,
+  replay [] (v_run_log ops vector_init ++ v_dtor_log (v_run ops vector_init)) = Some [].
+Proof.
+  intros. destruct (v_run_refines ops vector_init [] [] vrep_init (Permutation_refl _))
+    as (ns & live & R & _ & _ & E & P).
+  rewrite replay_app, E. destruct R as (Hc & Hf & _ & _ & Hd & _ & Hle).
+  unfold v_dtor_log. rewrite Hf, (dtor_loop_dseg _ _ _ _ Hc Hle).
+  destruct (replay_free_list (nids ns) live []) as (l1 & E1 & P1); [rewrite app_nil_r; exact P|].
+  rewrite E1. symmetry in P1. apply Permutation_nil in P1. subst. reflexivity.
+Qed.
+
+(* sort = sorted permutation (ascending for sort()/smaller(), descending for greater()) *)
+Lemma s_sort_le_sorted_perm : forall l,
+  Sorted (fun x y => x <= y) (s_sort z_le l) /\ Permutation (s_sort z_le l) l.
+Proof.
+  intros. split; [|apply sort_perm].
+  pose proof (sort_sorted z_le (fun x : Z => x) z_le_total l) as S.
+  unfold s_sort. induction S; constructor; auto.
+  destruct H; constructor. unfold lek, z_le in H. apply Z.leb_le. exact H.
+Qed.
+Lemma s_sort_ge_sorted_perm : forall l,
+  Sorted (fun x y => x >= y) (s_sort z_ge l) /\ Permutation (s_sort z_ge l) l.
+Proof.
+  intros. split; [|apply sort_perm].
+  pose proof (sort_sorted z_ge (fun x : Z => x) z_ge_total l) as S.
+  unfold s_sort. induction S; constructor; auto.
+  destruct H; constructor. unfold lek, z_ge in H. rewrite Z.geb_leb in H. apply Z.leb_le in H. lia.
+Qed.
